@@ -214,8 +214,13 @@ int main(int argc, char **argv) {
                 auto *m = dyn_cast<DIDerivedType>(e);
                 if (!m || m->getTag() != dwarf::DW_TAG_member) continue;
                 uint64_t offb = m->getOffsetInBits();
-                if (offb / 8 >= sl->getSizeInBytes()) continue;
-                unsigned idx = sl->getElementContainingOffset(offb / 8);
+                unsigned idx;
+                if (offb / 8 >= sl->getSizeInBytes()) {
+                  // flexible array member: lives at the end of the struct
+                  unsigned last = st->getNumElements() - 1;
+                  if (st->getNumElements() == 0 || sl->getElementOffset(last) != offb / 8) continue;
+                  idx = last;
+                } else idx = sl->getElementContainingOffset(offb / 8);
                 J.object([&] {
                   J.attribute("name", m->getName());
                   J.attribute("off_bits", (int64_t)offb);
